@@ -146,6 +146,18 @@ Corollary src_format_plain {C} U tig (tparm : list N -> C -> list N) dec colors 
   = SRet (format_line U (priority s c) target name [] [] extra).
 Proof. rewrite src_format_eq. reflexivity. Qed.
 
+(* the CLI always passes color=True (lib/cli.py Checker.tag); when stdout is no terminal, terminal.initialize is not called and
+   _curses is the dummy whose tigetstr returns b'': the line is again the uncoloured one (b''.decode() is '') *)
+Corollary src_format_no_tty {C} U (tparm : list N -> C -> list N) dec colors s c name target extra :
+  dec [] = SRet [] ->
+  src_format (repr_str U) repr_bytes_full (fun _ => Some []) strip_delay tparm dec colors (sev_rank s) (cer_rank c) name target extra true
+  = SRet (format_line U (priority s c) target name [] [] extra).
+Proof.
+  intros Hd. rewrite src_format_eq. unfold model_colors, attr_fg, attr_reset. change (strip_delay []) with (@nil N).
+  destruct (prio_colour (priority s c)) eqn:E; [|destruct s, c; discriminate E].
+  cbv beta iota zeta. rewrite !Hd. reflexivity.
+Qed.
+
 (* ---------------------------------------------------------------- consequence for the translated code itself *)
 
 Lemma priority_ascii s c : 32 <= priority s c <= 126.
